@@ -254,7 +254,7 @@ package cache
 //@   ensures entry != nil ==> result == entry && entry.cd == expected.cd && entry.scope == expected.scope && entry.cutUntil == cutUntil && entry.cutKey == cutKey
 //@
 //@ func (*Store).ReplaceIfCurrent
-//@   nosafety all
+//@   nosafety all pre
 //@   opaque internal/dnsutil.CalculateCacheTTL (*internal/cache.Cache).CompareAndSwap
 //@   note classification, TTL derivation and entry construction are havoced here; only the write discipline is claimed
 //@   requires s != nil && s.positive != nil && s.negative != nil && resp != nil
@@ -263,6 +263,8 @@ package cache
 //@   ensures calls("(*internal/cache.Cache).CompareAndSwap") <= 1
 //@   assert at call (*internal/cache.Cache).CompareAndSwap#1: arg1 == key && dyntype(arg2, *CacheEntry) && as(arg2, *CacheEntry) == expected && expected != nil
 //@   assert at call (*internal/cache.Cache).CompareAndSwap#2: arg1 == key && dyntype(arg2, *CacheEntry) && as(arg2, *CacheEntry) == expected && expected != nil
+//@   assert at call middleware/cache.NewCacheEntryWithKey#1: arg0 == lastret("middleware/cache.filterCacheableAnswer")
+//@   assert at call middleware/cache.NewCacheEntryWithKey#2: arg0 == lastret("middleware/cache.filterCacheableAnswer")
 //@
 //@ # ---- C12: a failure is offered to the shared failure cache only when the request tree has no request-local
 //@ # cause: no effective context error (cancellation / elapsed deadline), not a best-effort branch, no latched
@@ -280,3 +282,30 @@ package cache
 //@   assert at call (*middleware/cache.Store).RecordFailure#1: lastret("middleware/cache.cacheableResolutionFailure") && arg1 == lastret("(*middleware/cache.ResponseWriter).recursionWorkFailure") || arg1 == res
 //@   assert at call (*middleware/cache.Store).RecordFailure#1: lastret("middleware/cache.cacheableResolutionFailure")
 //@   assert at call (*middleware/cache.Store).RecordFailure#2: lastret("middleware/cache.cacheableResolutionFailure")
+//@
+//@ # ---- C07: only records owned by the question name (plus DNAMEs and their signatures) are offered to the cache
+//@ pred cacheKeep(qname string, r dns.RR) := hdrOf(r).Rrtype == dns.TypeDNAME || foldEq(qname, hdrOf(r).Name) || (dyntype(r, *dns.RRSIG) && as(r, *dns.RRSIG).TypeCovered == dns.TypeDNAME)
+//@ func filterCacheableAnswer$1
+//@   requires res != nil && len(res.Question) > 0 && r != nil && (dyntype(r, *dns.RRSIG) ==> as(r, *dns.RRSIG) != nil)
+//@   modifies nothing
+//@   ensures result == cacheKeep(res.Question[0].Name, r)
+//@ func filterCacheableAnswer
+//@   requires res != nil && len(res.Question) > 0 && rrWF(res.Answer)
+//@   loop 1 invariant forall j int :: {res.Answer[j]} 0 <= j && j < rangeidx ==> cacheKeep(res.Question[0].Name, res.Answer[j])
+//@   loop 2 invariant rrWF(res.Answer) && len(answer) <= rangeidx && cap(answer) == len(res.Answer) && forall j int :: {answer[j]} 0 <= j && j < len(answer) ==> cacheKeep(res.Question[0].Name, answer[j])
+//@   ensures result != nil && forall j int :: {result.Answer[j]} 0 <= j && j < len(result.Answer) ==> cacheKeep(old(res.Question[0].Name), result.Answer[j])
+//@ # every path that builds a cache entry from an upstream response builds it from the filtered message
+//@ func (*Store).setFromResponseWithKey
+//@   abstract
+//@   nosafety all pre
+//@   assert at call (*middleware/cache.Store).setFromResponseWithKey$2#1: arg0 == lastret("middleware/cache.filterCacheableAnswer")
+//@ func (*Store).setFromResponseWithKey$2
+//@   abstract
+//@   nosafety all pre
+//@   assert at call middleware/cache.NewCacheEntryWithKey#1: arg0 == msg
+//@   assert at call middleware/cache.NewScopedCacheEntry#1: arg0 == msg
+//@ func (*Cache).Set
+//@   abstract
+//@   nosafety all pre
+//@   assert at call middleware/cache.NewCacheEntryWithKey#1: arg0 == lastret("middleware/cache.filterCacheableAnswer")
+//@   assert at call (*middleware/cache.Store).RecordFailure#1: arg1 == lastret("middleware/cache.filterCacheableAnswer")
